@@ -454,26 +454,7 @@ RESTART:
 // validatorSetMatchesHashes reports whether the validators and public keys in vs
 // hash to the PubKeyHash and VotePowerHash that vs declares.
 func (m *Mirror) validatorSetMatchesHashes(vs tmconsensus.ValidatorSet) bool {
-	if len(vs.Validators) == 0 || len(vs.PubKeys) != len(vs.Validators) {
-		return false
-	}
-	for i, v := range vs.Validators {
-		if v.PubKey == nil || vs.PubKeys[i] == nil || !v.PubKey.Equal(vs.PubKeys[i]) {
-			return false
-		}
-	}
-
-	pubKeyHash, err := m.hashScheme.PubKeys(vs.PubKeys)
-	if err != nil || !bytes.Equal(pubKeyHash, vs.PubKeyHash) {
-		return false
-	}
-
-	powHash, err := m.hashScheme.VotePowers(tmconsensus.ValidatorsToVotePowers(vs.Validators))
-	if err != nil || !bytes.Equal(powHash, vs.VotePowerHash) {
-		return false
-	}
-
-	return true
+	return tmi.ValidatorSetMatchesHashes(m.hashScheme, vs)
 }
 
 func (m *Mirror) backfillCommitForNextHeightPE(
